@@ -1,23 +1,28 @@
 // C03 — a stream has one input; foreign arrivals and departures never disturb it.
 //
-// Model-based check: a generated history of actions (publishers of three
-// kinds arriving, relay pulls whose completion the harness orders through a
-// stub origin, subscribers joining/leaving, kicks with live / stale / foreign
-// ids, inputs leaving) is applied to a real in-process lal server and to a
-// reference model {accepted input, pull in flight, attached subscribers}.
-// After every action: (A1) the admission result equals the model's, (A2) a
-// marker sent by the accepted input reaches every attached subscriber and a
-// marker sent by a refused / departed input reaches no one, (A4) the stat API
-// lists exactly the model's sessions.  At the end (A3) the notification
-// sequence pairs start/stop exactly once per accepted network session.
+// Model-based check: a generated history of actions (publishers of five kinds arriving — RTMP, RTSP, customize,
+// GB28181 through start_rtp_pub, relay pulls whose completion the harness orders through a stub origin —,
+// subscribers of four kinds joining / leaving / being refused, kicks with live / stale / foreign ids, inputs
+// leaving, ticks) is applied to a real in-process lal server and to a reference model {accepted input, pull in
+// flight, attached subscribers}.  After every action: (A1) the admission result equals the model's, (A2) a marker
+// sent by the accepted input reaches every attached subscriber and the enabled per-stream outputs (FLV recording,
+// HLS), and media sent by a refused input or on the old handle of an input that is no longer accepted reaches
+// no one, (A4) the stat API lists exactly the model's sessions.  At the end (A3) the notification sequence pairs
+// start/stop exactly once per accepted network session and has nothing for refused publishers or subscribers.
 //
-// Not asserted: relative order of notifications of different sessions,
-// HasInSession/HasOutSession flags, notifications for customize inputs.
+// Files: media_test.go (what the inputs send), sinks_test.go (subscriber kinds), outputs_test.go (file outputs).
+//
+// Not asserted: relative order of notifications of different sessions, HasInSession/HasOutSession flags,
+// notifications for customize inputs; whether GB28181 inputs produce pub notifications at all (lal never had
+// them: none or one matching pair is accepted); delivery to HTTP-TS and RTSP subscribers that joined under an
+// earlier input (their PAT/PMT / SDP describe that input) or while the accepted input sends codec-less "plain"
+// probes; content and completeness of the file outputs after their input has left (C16).
 package c03
 
 import (
-	"bytes"
 	"fmt"
+	"net"
+	"path/filepath"
 	"sort"
 	"strings"
 	"testing"
@@ -29,36 +34,50 @@ import (
 
 	"verif/drv/pbt"
 	"verif/gen"
+	"verif/harness/hlsfs"
 	"verif/harness/inproc"
 	"verif/harness/lalclient"
 	"verif/harness/memconn"
 	"verif/harness/stub"
+	"verif/ref/rtpref"
 	"verif/ref/rtspref"
 )
 
 type Action struct {
 	Kind string `json:"kind"`
-	// pub-rtmp pub-rtsp pub-customize input-leave sub sub-leave kick pull-start pull-proceed pull-stop
+	// pub-rtmp pub-rtsp pub-customize pub-rtp input-leave sub sub-leave kick pull-start pull-proceed pull-stop refused-sends tick
 	Name int    `json:"name"`          // stream index
-	Sel  int    `json:"sel,omitempty"` // selector (subscriber / kick target / pull outcome)
-	Sub  string `json:"sub,omitempty"` // rtmp | flv
+	Sel  int    `json:"sel,omitempty"` // selector (subscriber / kick target / pull outcome / rtp pub timeout)
+	Sub  string `json:"sub,omitempty"` // rtmp | flv | ts | rtsp
+	Av   bool   `json:"av,omitempty"`  // pub-rtmp, pub-customize, pull-start: the input sends a real H.264 + AAC stream
+	Bad  bool   `json:"bad,omitempty"` // sub: presents a wrong secret (cases with auth only) and must be refused
 }
 
 type Case struct {
 	Names   int      `json:"names"`
+	Out     string   `json:"out,omitempty"`  // per-stream file output enabled in lal's configuration: "" | flv | hls
+	Auth    bool     `json:"auth,omitempty"` // simple auth for subscribers of all protocols
 	Actions []Action `json:"actions"`
 }
 
 func genCase(t *rapid.T) Case {
 	var c Case
 	c.Names = rapid.SampledFrom([]int{1, 1, 2}).Draw(t, "names")
+	c.Out = rapid.SampledFrom([]string{"", "flv", "hls", ""}).Draw(t, "out")
+	c.Auth = rapid.IntRange(0, 2).Draw(t, "auth") == 1
 	n := rapid.IntRange(2, 14).Draw(t, "nactions")
-	kinds := []string{"pub-rtmp", "pub-rtmp", "pub-rtmp", "pub-rtsp", "pub-customize", "input-leave", "input-leave", "sub", "sub", "sub-leave", "kick", "kick",
-		"pull-start", "pull-start", "pull-proceed", "pull-proceed", "pull-stop", "refused-sends", "tick", "tick"}
+	kinds := []string{"pub-rtmp", "pub-rtmp", "pub-rtmp", "pub-rtsp", "pub-rtp", "pub-customize", "input-leave", "input-leave", "sub", "sub", "sub", "sub-leave", "kick", "kick",
+		"pull-start", "pull-start", "pull-proceed", "pull-proceed", "pull-stop", "refused-sends", "refused-sends", "tick", "tick", "pub-rtp"}
 	for i := 0; i < n; i++ {
 		a := Action{Kind: rapid.SampledFrom(kinds).Draw(t, "kind"), Name: rapid.IntRange(0, c.Names-1).Draw(t, "name"), Sel: rapid.IntRange(0, 7).Draw(t, "sel")}
-		if a.Kind == "sub" {
-			a.Sub = rapid.SampledFrom([]string{"rtmp", "flv"}).Draw(t, "subKind")
+		switch a.Kind {
+		case "sub":
+			a.Sub = rapid.SampledFrom([]string{"rtmp", "flv", "ts", "rtsp"}).Draw(t, "subKind")
+			if c.Auth {
+				a.Bad = rapid.IntRange(0, 3).Draw(t, "bad") == 2
+			}
+		case "pub-rtmp", "pub-customize", "pull-start":
+			a.Av = rapid.IntRange(0, 2).Draw(t, "av") != 1
 		}
 		c.Actions = append(c.Actions, a)
 	}
@@ -68,18 +87,29 @@ func genCase(t *rapid.T) Case {
 // ---- model ----------------------------------------------------------------
 
 type input struct {
-	kind   string // rtmp | rtsp | customize | pull
+	kind   string // rtmp | rtsp | customize | pull | ps
 	id     string // lal session id ("" for customize)
 	pub    *lalclient.Publisher
 	rtsp   *memconn.Conn
 	custom logic.ICustomizePubSessionContext
 	pullC  *stub.Conn
+
+	av        bool // sends a real H.264 + AAC stream (always for rtsp and ps), see media_test.go
+	primed    bool // sequence headers / first frames sent and seen by lal
+	rtspC     *rtspref.Client
+	vseq      rtpref.Sequencer
+	aseq      rtpref.Sequencer
+	port      int // ps: the udp port lal listens on
+	udp       net.Conn
+	psStarted bool
+	sent      [][]byte // markers sent since the input was accepted (judged at the file outputs)
 }
 
 type subscriber struct {
-	kind string
-	c    *lalclient.Consumer
-	id   string
+	kind  string
+	k     sink
+	id    string
+	epoch int // streamModel.epoch at the time of joining
 }
 
 // lal only notices a failed pull attempt when its pull timeout expires, so the timeout bounds the cost of the
@@ -92,6 +122,7 @@ type pendingPull struct {
 	outcome int // 0 refuse(close before play answer) 1 play-start-then-stream 2 play-start-then-close
 	conn    *stub.Conn
 	id      string // pull session id returned by the API
+	av      bool
 }
 
 type streamModel struct {
@@ -101,16 +132,23 @@ type streamModel struct {
 	pull     *pendingPull // in flight (the origin has not answered play yet)
 	staleIDs []string     // ids of departed / refused sessions (kick targets)
 	refused  []*lalclient.Publisher
+	old      []*input // handles of inputs that are no longer accepted (kicked, departed) and can still be written to
+	epoch    int      // number of inputs that have left so far
+	accepted int      // number of inputs accepted so far
 }
 
 type world struct {
+	c       Case
 	s       *inproc.Server
 	origin  *stub.RtmpStub
+	layer   *hlsfs.Layer
 	streams []*streamModel
 	marker  uint32
+	clock   uint32 // media clock of the av probes (ms)
 	// expected notification multiset
 	accPubs  map[string]bool // session id -> accepted network publisher
 	accSubs  map[string]bool
+	psPubs   map[string]bool // session ids of accepted GB28181 inputs
 	pullAtt  map[string]bool // pull session id -> attached?
 	pullIDs  []string
 	refusedN int
@@ -129,12 +167,22 @@ func run(c Case) *pbt.Violation {
 		lalclient.Harness("stub listen: %v", err)
 	}
 	defer origin.Close()
-	s := inproc.New(inproc.Config{RtmpGopNum: 1, FlvGopNum: 1})
+	cfg := inproc.Config{RtmpGopNum: 1, FlvGopNum: 1, RecordFlv: c.Out == "flv", Hls: c.Out == "hls", HlsFragmentMs: 60000}
+	if c.Auth {
+		cfg.SimpleAuth = logic.SimpleAuthConfig{Key: "c03key", DangerousLalSecret: goodSecret, SubRtmpEnable: true, SubHttpflvEnable: true, SubHttptsEnable: true, SubRtspEnable: true}
+	}
+	s := inproc.New(cfg)
 	defer s.Close()
-	w := &world{s: s, origin: origin, accPubs: map[string]bool{}, accSubs: map[string]bool{}, pullAtt: map[string]bool{}}
+	w := &world{c: c, s: s, origin: origin, clock: 1000, accPubs: map[string]bool{}, accSubs: map[string]bool{}, psPubs: map[string]bool{}, pullAtt: map[string]bool{}}
+	if c.Out == "hls" {
+		w.layer = hlsfs.New(filepath.Join(s.Dir, "hls"), nil, nil)
+		restore := hlsfs.Install(w.layer)
+		defer restore()
+	}
 	for i := 0; i < c.Names; i++ {
 		w.streams = append(w.streams, &streamModel{name: fmt.Sprintf("c03s%d", i)})
 	}
+	defer w.closeHandles()
 	for ai, a := range c.Actions {
 		st := w.streams[a.Name%len(w.streams)]
 		if v := w.apply(ai, a, st); v != nil {
@@ -150,7 +198,50 @@ func run(c Case) *pbt.Violation {
 	return w.finish()
 }
 
+func (w *world) closeHandles() {
+	for _, st := range w.streams {
+		ins := append([]*input(nil), st.old...)
+		if st.in != nil {
+			ins = append(ins, st.in)
+		}
+		for _, in := range ins {
+			if in.udp != nil {
+				_ = in.udp.Close()
+			}
+		}
+	}
+}
+
 func (w *world) who(ai int, a Action) string { return fmt.Sprintf("action %d %+v", ai, a) }
+
+func (w *world) query(bad bool) string {
+	if !w.c.Auth {
+		return ""
+	}
+	if bad {
+		return "?lal_secret=" + badSecret
+	}
+	return "?lal_secret=" + goodSecret
+}
+
+// waitUntil polls a condition on lal's state that another goroutine of lal establishes.
+func waitUntil(d time.Duration, f func() bool) bool {
+	deadline := time.Now().Add(d)
+	for {
+		if f() {
+			return true
+		}
+		if time.Now().After(deadline) {
+			return false
+		}
+		time.Sleep(200 * time.Microsecond)
+	}
+}
+
+func (w *world) accept(st *streamModel, in *input) {
+	st.in = in
+	st.accepted++
+}
 
 func (w *world) apply(ai int, a Action, st *streamModel) *pbt.Violation {
 	s := w.s
@@ -169,7 +260,7 @@ func (w *world) apply(ai int, a Action, st *streamModel) *pbt.Violation {
 			if id == "" {
 				return pbt.V("A4/accepted-publisher-not-listed", "%s: accepted RTMP publisher is not listed by the stat API", w.who(ai, a))
 			}
-			st.in = &input{kind: "rtmp", id: id, pub: p}
+			w.accept(st, &input{kind: "rtmp", id: id, pub: p, av: a.Av})
 			w.accPubs[id] = true
 		} else {
 			// must be refused: the client is disconnected
@@ -186,9 +277,7 @@ func (w *world) apply(ai int, a Action, st *streamModel) *pbt.Violation {
 		conn := s.RtspConn()
 		_ = conn.SetReadDeadline(time.Now().Add(lalclient.DeliverTimeout))
 		rc := rtspref.NewClient(conn)
-		_, sps, pps := gen.ParamSets("avc", 0)
-		tracks := []rtspref.Track{{Media: "video", PT: 96, Encoding: "H264", ClockRate: 90000, Fmtp: rtspref.H264Fmtp(sps, pps), Control: "streamid=0"}}
-		_, perr := rc.Publish("rtsp://127.0.0.1:5544/live/"+st.name, tracks)
+		_, perr := rc.Publish("rtsp://127.0.0.1:5544/live/"+st.name, rtspTracks())
 		_ = conn.SetReadDeadline(time.Time{})
 		if st.in == nil {
 			if perr != nil {
@@ -203,12 +292,17 @@ func (w *world) apply(ai int, a Action, st *streamModel) *pbt.Violation {
 			if id == "" {
 				return pbt.V("A4/accepted-publisher-not-listed", "%s: accepted RTSP publisher is not listed by the stat API", w.who(ai, a))
 			}
-			st.in = &input{kind: "rtsp", id: id, rtsp: conn}
+			in := &input{kind: "rtsp", id: id, rtsp: conn, rtspC: rc, av: true}
+			in.vseq = rtpref.Sequencer{PT: rtspVideoPT, SSRC: 0x03030000 + uint32(ai), Seq: uint16(65531 + ai)}
+			in.aseq = rtpref.Sequencer{PT: rtspAudioPT, SSRC: 0x03038000 + uint32(ai), Seq: uint16(100 * ai)}
+			w.accept(st, in)
 			w.accPubs[id] = true
 		} else {
 			if perr == nil {
 				return pbt.V("A1/second-publisher-accepted", "%s: a second (RTSP) publisher completed ANNOUNCE/SETUP/RECORD while input %s (%s) is accepted", w.who(ai, a), st.in.id, st.in.kind)
 			}
+			// what a refused publisher sends all the same must go nowhere
+			_ = rc.WriteFrame(0, (&rtpref.Packet{PT: rtspVideoPT, Seq: 1, TS: 90, SSRC: 0xBAD0, Marker: true, Payload: idrNal(badPattern)}).Marshal())
 			_ = conn.Close()
 			conn.WaitPeerDone(lalclient.IdleTimeout)
 			w.refusedN++
@@ -221,24 +315,59 @@ func (w *world) apply(ai int, a Action, st *streamModel) *pbt.Violation {
 			if cerr != nil {
 				return pbt.V("A1/publisher-refused-without-input", "%s: AddCustomizePubSession failed although the stream has no input: %v", w.who(ai, a), cerr)
 			}
-			st.in = &input{kind: "customize", custom: ctx}
+			w.accept(st, &input{kind: "customize", custom: ctx, av: a.Av})
 		} else if cerr == nil {
 			return pbt.V("A1/second-publisher-accepted", "%s: AddCustomizePubSession succeeded while input %s (%s) is accepted", w.who(ai, a), st.in.id, st.in.kind)
 		}
+	case "pub-rtp":
+		// GB28181: start_rtp_pub.  UDP is the only variant lal can tear down again (a TCP rtp pub never closes its
+		// listener); with tick number 1 a timeout never expires, whatever its value
+		req := base.ApiCtrlStartRtpPubReq{StreamName: st.name, Port: 0, TimeoutMs: []int{0, 60000}[a.Sel%2]}
+		var resp base.ApiCtrlStartRtpPubResp
+		s.Call("CtrlStartRtpPub", func() { resp = s.SM.CtrlStartRtpPub(req) })
+		if st.in != nil {
+			if resp.ErrorCode == base.ErrorCodeSucc {
+				return pbt.V("A1/rtp-pub-started-with-input", "%s: start_rtp_pub answered success (session %s, port %d) while input %s (%s) is accepted", w.who(ai, a), resp.Data.SessionId, resp.Data.Port, st.in.id, st.in.kind)
+			}
+			w.refusedN++
+			return nil
+		}
+		if resp.ErrorCode == base.ErrorCodeListenUdpPortFail {
+			pbt.Count("rtp-pub-no-free-udp-port", 1)
+			return nil
+		}
+		if resp.ErrorCode != base.ErrorCodeSucc {
+			return pbt.V("A1/publisher-refused-without-input", "%s: start_rtp_pub failed although the stream has no input (pull in flight: %v): %d %s", w.who(ai, a), st.pull != nil, resp.ErrorCode, resp.Desp)
+		}
+		if resp.Data.SessionId == "" || resp.Data.Port <= 0 || resp.Data.StreamName != st.name {
+			return pbt.V("rtp-pub/wrong-answer", "%s: start_rtp_pub answered success with session %q port %d stream %q", w.who(ai, a), resp.Data.SessionId, resp.Data.Port, resp.Data.StreamName)
+		}
+		in := &input{kind: "ps", id: resp.Data.SessionId, port: resp.Data.Port, av: true}
+		in.vseq = rtpref.Sequencer{PT: 96, SSRC: 0x03050000 + uint32(ai), Seq: uint16(65533 + ai)}
+		w.accept(st, in)
+		w.psPubs[in.id] = true
 	case "input-leave":
 		if st.in == nil {
 			return nil
 		}
-		w.inputLeaves(st)
+		return w.inputLeaves(ai, a, st)
 	case "sub":
-		var cc *lalclient.Consumer
-		if a.Sub == "flv" {
-			cc = lalclient.NewFlvSub(s, "live", st.name, false)
-		} else {
-			cc = lalclient.NewRtmpSub(s, "live", st.name)
+		k := join(s, a.Sub, st.name, w.query(a.Bad))
+		if a.Bad && w.c.Auth {
+			// must be refused: disconnected, never listed, no notification (A3, A4)
+			if !k.waitEnded(lalclient.DeliverTimeout) {
+				return pbt.V("sub/bad-secret-not-refused", "%s: a %s subscriber presenting a wrong secret was not disconnected", w.who(ai, a), a.Sub)
+			}
+			k.close()
+			k.conn().WaitPeerDone(lalclient.IdleTimeout)
+			w.refusedN++
+			return nil
 		}
-		if cc.JoinErr() != nil {
-			return pbt.V("sub-refused", "%s: subscriber refused: %v", w.who(ai, a), cc.JoinErr())
+		if m, ok := k.(msgSink); ok && m.c.JoinErr() != nil {
+			return pbt.V("sub-refused", "%s: subscriber refused: %v", w.who(ai, a), m.c.JoinErr())
+		}
+		if k.ended() {
+			return pbt.V("sub-refused", "%s: the %s subscriber was disconnected at once", w.who(ai, a), a.Sub)
 		}
 		// learn its id: the one id in stat that the model does not know yet
 		sg := statOf(w, st)
@@ -257,7 +386,7 @@ func (w *world) apply(ai int, a Action, st *streamModel) *pbt.Violation {
 		if id == "" {
 			return pbt.V("A4/attached-subscriber-not-listed", "%s: the new subscriber is not listed by the stat API", w.who(ai, a))
 		}
-		st.subs = append(st.subs, &subscriber{kind: a.Sub, c: cc, id: id})
+		st.subs = append(st.subs, &subscriber{kind: a.Sub, k: k, id: id, epoch: st.epoch})
 		w.accSubs[id] = true
 	case "sub-leave":
 		if len(st.subs) == 0 {
@@ -265,8 +394,8 @@ func (w *world) apply(ai int, a Action, st *streamModel) *pbt.Violation {
 		}
 		i := a.Sel % len(st.subs)
 		sb := st.subs[i]
-		sb.c.Close()
-		sb.c.Conn.WaitPeerDone(lalclient.IdleTimeout)
+		sb.k.close()
+		sb.k.conn().WaitPeerDone(lalclient.IdleTimeout)
 		st.subs = append(st.subs[:i], st.subs[i+1:]...)
 		st.staleIDs = append(st.staleIDs, sb.id)
 	case "kick":
@@ -289,7 +418,7 @@ func (w *world) apply(ai int, a Action, st *streamModel) *pbt.Violation {
 				}
 			}
 		}
-		ids = append(ids, "RTMPPUBSUB99999", "FLVSUB99999", "nonsense")
+		ids = append(ids, "RTMPPUBSUB99999", "FLVSUB99999", "nonsense", "PSPUB99999")
 		id := ids[a.Sel%len(ids)]
 		var resp base.ApiCtrlKickSessionResp
 		s.Call("CtrlKickSession", func() { resp = s.SM.CtrlKickSession(base.ApiCtrlKickSessionReq{StreamName: st.name, SessionId: id}) })
@@ -300,7 +429,7 @@ func (w *world) apply(ai int, a Action, st *streamModel) *pbt.Violation {
 				return pbt.V("kick/attached-session-not-found", "%s: kick of the accepted input %s answered %d %s", w.who(ai, a), id, resp.ErrorCode, resp.Desp)
 			}
 			// the input is disconnected by the server
-			w.inputKicked(st)
+			return w.inputKicked(ai, a, st)
 		default:
 			hit := -1
 			for i, sb := range st.subs {
@@ -313,10 +442,10 @@ func (w *world) apply(ai int, a Action, st *streamModel) *pbt.Violation {
 					return pbt.V("kick/attached-session-not-found", "%s: kick of attached subscriber %s answered %d %s", w.who(ai, a), id, resp.ErrorCode, resp.Desp)
 				}
 				sb := st.subs[hit]
-				if !sb.c.WaitEnded(lalclient.DeliverTimeout) {
+				if !sb.k.waitEnded(lalclient.DeliverTimeout) {
 					return pbt.V("kick/not-disconnected", "%s: kicked subscriber %s still connected", w.who(ai, a), id)
 				}
-				sb.c.Conn.WaitPeerDone(lalclient.IdleTimeout)
+				sb.k.conn().WaitPeerDone(lalclient.IdleTimeout)
 				st.subs = append(st.subs[:hit], st.subs[hit+1:]...)
 				st.staleIDs = append(st.staleIDs, id)
 			} else if resp.ErrorCode == base.ErrorCodeSucc {
@@ -362,7 +491,7 @@ func (w *world) apply(ai int, a Action, st *streamModel) *pbt.Violation {
 		if err := oc.ServeUntilPlayOrPublish(); err != nil {
 			lalclient.Harness("stub serve: %v", err)
 		}
-		st.pull = &pendingPull{outcome: a.Sel % 3, conn: oc, id: resp.Data.SessionId, started: time.Now()}
+		st.pull = &pendingPull{outcome: a.Sel % 3, conn: oc, id: resp.Data.SessionId, started: time.Now(), av: a.Av}
 		w.pullIDs = append(w.pullIDs, resp.Data.SessionId)
 	case "pull-proceed":
 		if st.pull == nil {
@@ -395,15 +524,18 @@ func (w *world) apply(ai int, a Action, st *streamModel) *pbt.Violation {
 					return pbt.V("pull/not-attached", "%s: the origin accepted play for %s but the pull never attached (no start notification)", w.who(ai, a), pp.id)
 				}
 				w.pullAtt[pp.id] = true
-				st.in = &input{kind: "pull", id: pp.id, pullC: pp.conn}
+				w.accept(st, &input{kind: "pull", id: pp.id, pullC: pp.conn, av: pp.av})
 				if pp.outcome == 2 {
-					w.inputLeaves(st)
+					return w.inputLeaves(ai, a, st)
 				}
 			} else {
 				// a publisher overtook the pull: lal must drop the pull and leave the publisher alone
 				if !w.waitEvent("pull_stop", pp.id, lalclient.DeliverTimeout) {
 					return pbt.V("A3/no-pull-stop", "%s: relay pull %s completed after input %s took the stream, but no stop notification arrived", w.who(ai, a), pp.id, st.in.id)
 				}
+				// what the origin sends to the overtaken pull must go nowhere
+				pbt.Count("old-handle-sends:pull-overtaken", 1)
+				sendBadRtmp(pp.conn.SendMedia)
 				pp.conn.Close()
 				w.disablePull(st)
 			}
@@ -422,9 +554,10 @@ func (w *world) apply(ai int, a Action, st *streamModel) *pbt.Violation {
 			if !w.waitEvent("pull_stop", id, lalclient.DeliverTimeout) {
 				return pbt.V("A3/no-pull-stop", "%s: stopped pull %s produced no stop notification", w.who(ai, a), id)
 			}
+			sendBadRtmp(st.in.pullC.SendMedia)
 			st.in.pullC.Close()
 			st.staleIDs = append(st.staleIDs, id)
-			st.in = nil
+			w.left(st)
 		} else if resp.ErrorCode == base.ErrorCodeSucc {
 			return pbt.V("pull-stop/success-without-pull", "%s: stop_relay_pull answered success (session %q) although no pull session is attached", w.who(ai, a), resp.Data.SessionId)
 		}
@@ -439,15 +572,74 @@ func (w *world) apply(ai int, a Action, st *streamModel) *pbt.Violation {
 			lalclient.Harness("a tick started a pull attempt behind the model's back")
 		}
 	case "refused-sends":
-		// media from a refused publisher must reach no one (checked by the invariant's negative probe)
+		// media from a refused publisher, or sent on the old handle of an input that was kicked or has left, must
+		// reach no one (checked by the invariant's negative probe)
 		for _, p := range st.refused {
-			_ = p.Send(gen.TypeAudio, 1, []byte{0xAF, 1, 0xBA, 0xD0, 0xBA, 0xD0}, 0)
+			p := p
+			sendBadRtmp(func(typ uint8, ts uint32, payload []byte) error { return p.Send(typ, ts, payload, 0) })
+		}
+		for _, in := range st.old {
+			w.sendBadOnOldHandle(in)
+		}
+		// forwarding is asynchronous (per-subscriber write queues) and a stream without input has nothing to
+		// synchronise on: give a wrongly forwarded message a moment to show up.  While the stream has an input, its
+		// next marker, queued behind, does that
+		if len(st.refused)+len(st.old) > 0 && len(st.subs) > 0 {
+			waitUntil(30*time.Millisecond, func() bool {
+				for _, sb := range st.subs {
+					if sb.k.has(badPattern, false) {
+						return true
+					}
+				}
+				return false
+			})
 		}
 	}
 	return nil
 }
 
-func (w *world) inputLeaves(st *streamModel) {
+// sendBadRtmp sends the media of a party that is not (or no longer) the accepted input: the opaque audio message
+// and a key frame, both carrying badPattern.
+func sendBadRtmp(send func(typ uint8, ts uint32, payload []byte) error) {
+	_ = send(gen.TypeAudio, 1, badAudio)
+	_ = send(gen.TypeVideo, 2, rtmpKeyFrame(idrNal(badPattern)))
+}
+
+func (w *world) sendBadOnOldHandle(in *input) {
+	pbt.Count("old-handle-sends:"+in.kind, 1)
+	switch in.kind {
+	case "rtmp":
+		sendBadRtmp(func(typ uint8, ts uint32, payload []byte) error { return in.pub.Send(typ, ts, payload, 0) })
+	case "customize":
+		sendBadRtmp(in.rtmpSend(w))
+	case "rtsp":
+		_ = in.rtspVideo(3, idrNal(badPattern))
+	case "ps":
+		// the port may have been handed to a later session by lal's port pool
+		for _, st := range w.streams {
+			if st.in != nil && st.in.kind == "ps" && st.in.port == in.port {
+				return
+			}
+		}
+		_ = in.psSend(3, idrNal(badPattern))
+		_ = in.psSend(13, padNal(13))
+	}
+}
+
+// left records that the accepted input of st is gone.
+func (w *world) left(st *streamModel) {
+	st.in = nil
+	st.epoch++
+}
+
+func (w *world) pubGone(st *streamModel, id string) bool {
+	return waitUntil(lalclient.DeliverTimeout, func() bool {
+		sg := statOf(w, st)
+		return sg == nil || sg.StatPub.SessionId != id
+	})
+}
+
+func (w *world) inputLeaves(ai int, a Action, st *streamModel) *pbt.Violation {
 	in := st.in
 	switch in.kind {
 	case "rtmp":
@@ -458,30 +650,52 @@ func (w *world) inputLeaves(st *streamModel) {
 		in.rtsp.WaitPeerDone(lalclient.IdleTimeout)
 	case "customize":
 		w.s.Call("DelCustomizePubSession", func() { w.s.SM.DelCustomizePubSession(in.custom) })
+		st.old = append(st.old, in)
 	case "pull":
 		in.pullC.Close()
 		w.waitEvent("pull_stop", in.id, lalclient.DeliverTimeout)
 		w.disablePull(st)
+	case "ps":
+		// lal offers no "stop_rtp_pub": a GB28181 input ends by kick_session (or by its timeout)
+		var resp base.ApiCtrlKickSessionResp
+		w.s.Call("CtrlKickSession", func() { resp = w.s.SM.CtrlKickSession(base.ApiCtrlKickSessionReq{StreamName: st.name, SessionId: in.id}) })
+		if resp.ErrorCode != base.ErrorCodeSucc {
+			return pbt.V("kick/attached-session-not-found", "%s: kick of the accepted GB28181 input %s answered %d %s", w.who(ai, a), in.id, resp.ErrorCode, resp.Desp)
+		}
+		if !w.pubGone(st, in.id) {
+			return pbt.V("kick/not-disconnected", "%s: the kicked GB28181 input %s is still the publisher of %s", w.who(ai, a), in.id, st.name)
+		}
+		st.old = append(st.old, in)
 	}
 	if in.id != "" {
 		st.staleIDs = append(st.staleIDs, in.id)
 	}
-	st.in = nil
+	w.left(st)
+	return nil
 }
 
-func (w *world) inputKicked(st *streamModel) {
+func (w *world) inputKicked(ai int, a Action, st *streamModel) *pbt.Violation {
 	in := st.in
 	switch in.kind {
 	case "rtmp":
 		in.pub.Conn.WaitPeerDone(lalclient.IdleTimeout)
+		st.old = append(st.old, in)
 	case "rtsp":
 		in.rtsp.WaitPeerDone(lalclient.IdleTimeout)
+		st.old = append(st.old, in)
 	case "pull":
 		w.waitEvent("pull_stop", in.id, lalclient.DeliverTimeout)
+		sendBadRtmp(in.pullC.SendMedia)
 		in.pullC.Close()
+	case "ps":
+		if !w.pubGone(st, in.id) {
+			return pbt.V("kick/not-disconnected", "%s: the kicked GB28181 input %s is still the publisher of %s", w.who(ai, a), in.id, st.name)
+		}
+		st.old = append(st.old, in)
 	}
 	st.staleIDs = append(st.staleIDs, in.id)
-	st.in = nil
+	w.left(st)
+	return nil
 }
 
 // disablePull switches the API-started pull off again once a scripted attempt is over, so that lal does not
@@ -501,21 +715,10 @@ func (w *world) hasEvent(kind, id string) bool {
 }
 
 func (w *world) waitEvent(kind, id string, d time.Duration) bool {
-	deadline := time.Now().Add(d)
-	for {
-		for _, e := range w.s.Notify.Events() {
-			if e.Kind == kind && e.SessionID == id {
-				return true
-			}
-		}
-		if time.Now().After(deadline) {
-			return false
-		}
-		time.Sleep(200 * time.Microsecond)
-	}
+	return waitUntil(d, func() bool { return w.hasEvent(kind, id) })
 }
 
-// invariant: A2 (delivery probes) and A4 (stat) after every action.
+// invariant: A2 (delivery probes, outputs) and A4 (stat) after every action.
 func (w *world) invariant(ai int, a Action) *pbt.Violation {
 	for _, st := range w.streams {
 		// A4
@@ -541,7 +744,7 @@ func (w *world) invariant(ai int, a Action) *pbt.Violation {
 		wantPub, wantPull := "", ""
 		if st.in != nil {
 			switch st.in.kind {
-			case "rtmp", "rtsp":
+			case "rtmp", "rtsp", "ps":
 				wantPub = st.in.id
 			case "pull":
 				wantPull = st.in.id
@@ -554,40 +757,177 @@ func (w *world) invariant(ai int, a Action) *pbt.Violation {
 			return pbt.V("A4/stat-pull-differs", "after %s: stream %s stat lists pull session %q, attached pull is %q", w.who(ai, a), st.name, gotPull, wantPull)
 		}
 		// A2: positive probe
-		if st.in != nil && len(st.subs) > 0 && (st.in.kind == "rtmp" || st.in.kind == "customize" || st.in.kind == "pull") {
-			mk := w.nextMarker()
-			switch st.in.kind {
-			case "rtmp":
-				if err := st.in.pub.Send(gen.TypeAudio, w.marker, mk, 0); err != nil {
-					return pbt.V("A2/accepted-input-disconnected", "after %s: the accepted RTMP input %s of %s can no longer send: %v", w.who(ai, a), st.in.id, st.name, err)
-				}
-			case "customize":
-				var ferr error
-				w.s.Call("FeedRtmpMsg", func() {
-					ferr = st.in.custom.FeedRtmpMsg(base.RtmpMsg{Header: base.RtmpHeader{Csid: 4, MsgLen: uint32(len(mk)), MsgTypeId: 8, MsgStreamId: 1, TimestampAbs: w.marker}, Payload: mk})
-				})
-				if ferr != nil {
-					return pbt.V("A2/accepted-input-disconnected", "after %s: FeedRtmpMsg on the accepted customize input failed: %v", w.who(ai, a), ferr)
-				}
-			case "pull":
-				if err := st.in.pullC.SendMedia(8, w.marker, mk); err != nil {
-					return pbt.V("A2/accepted-input-disconnected", "after %s: the origin's connection for pull %s is closed: %v", w.who(ai, a), st.in.id, err)
-				}
-			}
-			for _, sb := range st.subs {
-				if sb.c.WaitFor(func(r lalclient.Rec) bool { return bytes.Equal(r.Payload, mk) }, lalclient.DeliverTimeout) < 0 {
-					return pbt.V("A2/delivery-disturbed", "after %s: a marker sent by the accepted input %s (%s) of %s did not reach subscriber %s (%s)", w.who(ai, a), st.in.id, st.in.kind, st.name, sb.id, sb.kind)
-				}
+		if st.in != nil {
+			if v := w.probe(ai, a, st); v != nil {
+				return v
 			}
 		}
-		// A2: negative — nothing from refused publishers was forwarded
+		// A2: negative — nothing from refused publishers or old handles was forwarded
 		for _, sb := range st.subs {
-			for _, r := range sb.c.Recs() {
-				if bytes.Equal(r.Payload, []byte{0xAF, 1, 0xBA, 0xD0, 0xBA, 0xD0}) {
-					return pbt.V("A2/refused-input-forwarded", "after %s: media sent by a refused publisher reached subscriber %s of %s", w.who(ai, a), sb.id, st.name)
-				}
+			if sb.k.has(badPattern, false) {
+				return pbt.V("A2/refused-input-forwarded", "after %s: media sent by a refused publisher or on the handle of an input that is no longer accepted reached subscriber %s (%s) of %s", w.who(ai, a), sb.id, sb.kind, st.name)
 			}
 		}
+		if v := w.outputsClean(ai, a, st); v != nil {
+			return v
+		}
+	}
+	return nil
+}
+
+// probe sends one marker through the accepted input of st and requires it at every attached subscriber that can
+// be expected to decode this input, and at the enabled file output.
+func (w *world) probe(ai int, a Action, st *streamModel) *pbt.Violation {
+	in := st.in
+	var judged []*subscriber
+	for _, sb := range st.subs {
+		switch sb.kind {
+		case "rtmp", "flv":
+			judged = append(judged, sb)
+		default:
+			// an HTTP-TS / RTSP subscriber is described one input (PAT/PMT, SDP): judged under the input it met
+			if in.av && sb.epoch == st.epoch {
+				judged = append(judged, sb)
+			}
+		}
+	}
+	fileOut := w.c.Out == "flv" || (w.c.Out == "hls" && in.av)
+	if len(judged) == 0 && !fileOut {
+		return nil
+	}
+	fail := func(err error) *pbt.Violation {
+		return pbt.V("A2/accepted-input-disconnected", "after %s: the accepted %s input %s of %s can no longer send: %v", w.who(ai, a), in.kind, in.id, st.name, err)
+	}
+	var pat []byte
+	exact := false
+	if !in.av {
+		mk := w.nextMarker()
+		pat, exact = mk, true
+		if err := in.rtmpSend(w)(gen.TypeAudio, w.marker, mk); err != nil {
+			return fail(err)
+		}
+	} else {
+		if !in.primed {
+			if v := w.prime(ai, a, st); v != nil {
+				return v
+			}
+		}
+		// subscribers whose DESCRIBE was waiting for a session description are answered now; they have to
+		// complete SETUP / PLAY before a probe can reach them
+		var ready []*subscriber
+		for _, sb := range judged {
+			if r, ok := sb.k.(*rtspSink); ok {
+				switch r.waitSettled(lalclient.DeliverTimeout) {
+				case "describing":
+					return pbt.V("A2/rtsp-subscriber-not-described", "after %s: the accepted %s input %s of %s has announced its tracks, but the DESCRIBE of RTSP subscriber %s, waiting since before, was never answered", w.who(ai, a), in.kind, in.id, st.name, sb.id)
+				case "playing":
+				default:
+					pbt.Count("rtsp-subscriber-not-playable", 1)
+					continue
+				}
+			}
+			ready = append(ready, sb)
+		}
+		judged = ready
+		w.marker++
+		pat = videoMarker(w.marker)
+		if err := w.sendAvProbe(in, pat); err != nil {
+			return fail(err)
+		}
+	}
+	in.sent = append(in.sent, pat)
+	for _, sb := range judged {
+		ok := false
+		if in.kind == "ps" {
+			// UDP: a datagram may be lost on a loaded machine; the frame is repeated
+			for try := 0; try < 10 && !ok; try++ {
+				if ok = sb.k.waitHas(pat, exact, lalclient.DeliverTimeout/10); !ok {
+					_ = w.sendAvProbe(in, pat)
+				}
+			}
+		} else {
+			ok = sb.k.waitHas(pat, exact, lalclient.DeliverTimeout)
+		}
+		pbt.Count("judged-delivery:"+in.kind+map[bool]string{true: "(av)", false: "(plain)"}[in.av]+"->"+sb.kind, 1)
+		if !ok {
+			return pbt.V("A2/delivery-disturbed", "after %s: a marker sent by the accepted input %s (%s) of %s did not reach subscriber %s (%s)", w.who(ai, a), in.id, in.kind, st.name, sb.id, sb.kind)
+		}
+	}
+	if fileOut {
+		pbt.Count("judged-output:"+w.c.Out+"<-"+in.kind, 1)
+		return w.outputsHave(ai, a, st)
+	}
+	return nil
+}
+
+func (w *world) tick() uint32 {
+	w.clock += 100
+	return w.clock
+}
+
+// codecsKnown: lal has processed both sequence headers of the accepted input (they are recorded in the group's
+// statistics inside the same call that forwards them).
+func (w *world) codecsKnown(st *streamModel) bool {
+	sg := statOf(w, st)
+	return sg != nil && sg.VideoCodec != "" && sg.AudioCodec != ""
+}
+
+// prime makes the accepted av input announce its tracks: RTMP sequence headers, the SDP (already sent with
+// ANNOUNCE, processed by lal in a goroutine of its own), the first PS packs.
+func (w *world) prime(ai int, a Action, st *streamModel) *pbt.Violation {
+	in := st.in
+	ok := false
+	switch in.kind {
+	case "rtmp", "customize", "pull":
+		ts := w.tick()
+		snd := in.rtmpSend(w)
+		if err := snd(gen.TypeVideo, ts, rtmpVideoSeqHeader()); err == nil {
+			_ = snd(gen.TypeAudio, ts, rtmpAudioSeqHeader())
+		}
+		ok = waitUntil(lalclient.DeliverTimeout, func() bool { return w.codecsKnown(st) })
+	case "rtsp":
+		ok = waitUntil(lalclient.DeliverTimeout, func() bool { return w.codecsKnown(st) })
+	case "ps":
+		for try := 0; try < 10 && !ok; try++ {
+			ts := w.tick()
+			_ = in.psSend(ts, idrNal([]byte{0x51, 0x52, 0x53, 0x54}))
+			_ = in.psSend(ts+40, padNal(ts))
+			ok = waitUntil(lalclient.DeliverTimeout/10, func() bool { return w.codecsKnown(st) })
+		}
+	}
+	if !ok {
+		return pbt.V("A2/input-headers-not-processed", "after %s: the accepted %s input %s of %s sent its parameter sets and audio configuration, but lal's statistics never showed the codecs of the stream", w.who(ai, a), in.kind, in.id, st.name)
+	}
+	in.primed = true
+	return nil
+}
+
+// sendAvProbe sends an AAC frame and then a key frame carrying pat (plus what the input's protocol needs to
+// push the key frame through lal's reordering stages).
+func (w *world) sendAvProbe(in *input, pat []byte) error {
+	ts := w.tick()
+	switch in.kind {
+	case "rtmp", "customize", "pull":
+		snd := in.rtmpSend(w)
+		if err := snd(gen.TypeAudio, ts, rtmpAudioFrame(ts)); err != nil {
+			return err
+		}
+		return snd(gen.TypeVideo, ts+5, rtmpKeyFrame(idrNal(pat)))
+	case "rtsp":
+		// lal interleaves the two tracks by timestamp: the key frame is released by the audio frame behind it
+		if err := in.rtspAudio(ts); err != nil {
+			return err
+		}
+		if err := in.rtspVideo(ts+5, idrNal(pat)); err != nil {
+			return err
+		}
+		return in.rtspAudio(ts + 10)
+	case "ps":
+		// lal's PS parser holds the newest frame until the next one begins
+		if err := in.psSend(ts, idrNal(pat)); err != nil {
+			return err
+		}
+		return in.psSend(ts+40, padNal(ts))
 	}
 	return nil
 }
@@ -602,15 +942,22 @@ func (w *world) finish() *pbt.Violation {
 			st.pull = nil
 		}
 		if st.in != nil {
-			w.inputLeaves(st)
+			if v := w.inputLeaves(len(w.c.Actions), Action{Kind: "end"}, st); v != nil {
+				return v
+			}
 		}
 		for _, sb := range st.subs {
-			sb.c.Close()
-			sb.c.Conn.WaitPeerDone(lalclient.IdleTimeout)
+			sb.k.close()
+			sb.k.conn().WaitPeerDone(lalclient.IdleTimeout)
 		}
 		for _, p := range st.refused {
 			p.Close()
 			p.Conn.WaitPeerDone(lalclient.IdleTimeout)
+		}
+		for _, in := range st.old {
+			if in.kind == "rtmp" {
+				in.pub.Close()
+			}
 		}
 	}
 	if v := w.s.PanicViolation(); v != nil {
@@ -658,7 +1005,7 @@ func (w *world) finish() *pbt.Violation {
 		}
 	}
 	for id, c := range pubs {
-		if !w.accPubs[id] {
+		if !w.accPubs[id] && !w.psPubs[id] {
 			return pbt.V("A3/notification-for-refused-publisher", "notifications (start=%d stop=%d) were emitted for publisher session %s, which was never accepted", c.start, c.stop, id)
 		}
 		if c.start != 1 || c.stop != 1 || c.order != 0 {
@@ -672,7 +1019,7 @@ func (w *world) finish() *pbt.Violation {
 	}
 	for id, c := range subs {
 		if !w.accSubs[id] {
-			return pbt.V("A3/notification-for-refused-subscriber", "notifications were emitted for subscriber session %s, which was never attached", id)
+			return pbt.V("A3/notification-for-refused-subscriber", "notifications (start=%d stop=%d) were emitted for subscriber session %s, which was never attached", c.start, c.stop, id)
 		}
 		if c.start != 1 || c.stop != 1 || c.order != 0 {
 			return pbt.V("A3/subscriber-notifications-not-paired", "subscriber %s: %d start and %d stop notifications", id, c.start, c.stop)
@@ -705,26 +1052,53 @@ func (w *world) finish() *pbt.Violation {
 
 func classify(c Case) (bool, []string) {
 	var labels []string
-	inputs := make([]bool, c.Names)
+	inputs := make([]string, c.Names) // kind of the accepted input
 	pulls := make([]bool, c.Names)
+	left := make([]bool, c.Names) // an input has left / been kicked (an old handle may exist)
 	nt := false
+	if c.Out != "" {
+		labels = append(labels, "out:"+c.Out)
+	}
+	if c.Auth {
+		labels = append(labels, "auth")
+	}
 	for _, a := range c.Actions {
 		n := a.Name % c.Names
 		labels = append(labels, "act:"+a.Kind)
 		switch a.Kind {
-		case "pub-rtmp", "pub-rtsp", "pub-customize":
-			if inputs[n] {
-				labels = append(labels, "second-input-offered:"+a.Kind)
+		case "pub-rtmp", "pub-rtsp", "pub-customize", "pub-rtp":
+			if inputs[n] != "" {
+				labels = append(labels, "second-input-offered:"+a.Kind, "second-input:"+a.Kind+"-while-"+inputs[n])
 				nt = true
+			} else {
+				inputs[n] = a.Kind
+				if a.Av || a.Kind == "pub-rtsp" || a.Kind == "pub-rtp" {
+					labels = append(labels, "av-input:"+a.Kind)
+				}
 			}
 			if pulls[n] {
 				labels = append(labels, "publisher-while-pull-in-flight")
 			}
-			inputs[n] = true
 		case "input-leave":
-			inputs[n] = false
+			if inputs[n] != "" {
+				left[n] = true
+			}
+			inputs[n] = ""
+		case "sub":
+			if a.Bad && c.Auth {
+				labels = append(labels, "sub-refused:"+a.Sub)
+			} else {
+				labels = append(labels, "sub:"+a.Sub)
+				if inputs[n] != "" {
+					labels = append(labels, "sub:"+a.Sub+"-under-"+inputs[n])
+				}
+			}
+		case "refused-sends":
+			if left[n] {
+				labels = append(labels, "old-handle-sends")
+			}
 		case "pull-start":
-			if !inputs[n] {
+			if inputs[n] == "" {
 				pulls[n] = true
 			} else {
 				labels = append(labels, "pull-start-with-input")
@@ -732,18 +1106,18 @@ func classify(c Case) (bool, []string) {
 			}
 		case "tick":
 			for i := range pulls {
-				if pulls[i] && !inputs[i] {
+				if pulls[i] && inputs[i] == "" {
 					labels = append(labels, "tick-while-pull-in-flight")
 					nt = true
 				}
 			}
 		case "pull-proceed":
-			if pulls[n] && inputs[n] {
+			if pulls[n] && inputs[n] != "" {
 				labels = append(labels, "pull-completes-after-publisher")
 				nt = true
 			}
-			if pulls[n] && !inputs[n] && a.Sel%3 == 1 {
-				inputs[n] = true
+			if pulls[n] && inputs[n] == "" && a.Sel%3 == 1 {
+				inputs[n] = "pull"
 			}
 			pulls[n] = false
 		}
